@@ -1327,6 +1327,61 @@ path "cubbyhole/*" { capabilities = ["create", "update", "read", "list"] }`}); c
 		out.Op(fmt.Sprintf("%s|%s|child:%s%s", tcl, rcl, state, viol), "nscase", "tidy-child")
 		_ = c.Shutdown()
 	}
+	{
+		// tidy-sealed-ancestor: a root-namespace token has a non-orphaned child in c04s/in/ (c04s/ has a seal of its
+		// own); c04s/ is sealed — the namespaces below it leave the namespace store —, auth/token/tidy runs in the root
+		// namespace, c04s/ is unsealed, the parent is revoked: the cascade must still reach the child
+		p := vhNewPhys(t)
+		c, _, root := vhNewCore(t, p, nil, nil)
+		ns1 := &namespace.Namespace{Path: "c04s/"}
+		ns2 := &namespace.Namespace{Path: "c04s/in/"}
+		keys := TestCoreCreateUnsealedNamespaces(t, c, ns1)
+		TestCoreCreateNamespaces(t, c, ns2)
+		par := vhCreateToken(t, c, root, map[string]any{"ttl": "2h", "policies": []string{"root"}})
+		cl, resp := vhReq(c, logical.UpdateOperation, "c04s/in/auth/token/create", par, map[string]any{"ttl": "1h", "policies": []string{"default"}})
+		if cl != "ok" || resp == nil || resp.Auth == nil || resp.Auth.Orphan {
+			t.Fatalf("child below a sealable namespace: %s", cl)
+		}
+		child := resp.Auth.ClientToken
+		out.Reset()
+		if err := c.namespaceStore.SealNamespace(vhRootCtx(), "c04s/"); err != nil {
+			t.Fatalf("seal: %v", err)
+		}
+		tcl, _ := vhReq(c, logical.UpdateOperation, "auth/token/tidy", root, nil)
+		time.Sleep(100 * time.Millisecond)
+		c.tokenStore.tidyLock.Lock()
+		c.tokenStore.tidyLock.Unlock() //nolint:staticcheck
+		unsealed := false
+		for _, key := range keys["c04s/"] {
+			u, err := TestNamespaceUnseal(c, ns1, key)
+			if err != nil {
+				t.Fatalf("unseal: %v", err)
+			}
+			if u {
+				unsealed = true
+				break
+			}
+		}
+		before := "alive"
+		if lcl, _ := vhReq(c, logical.ReadOperation, "c04s/in/auth/token/lookup-self", child, nil); lcl != "ok" || !unsealed {
+			before = "lost:" + lcl
+		}
+		rcl, _ := vhReq(c, logical.UpdateOperation, "auth/token/revoke", root, map[string]any{"token": par})
+		state := "alive"
+		for i := 0; i < 400; i++ {
+			if lcl, _ := vhReq(c, logical.ReadOperation, "c04s/in/auth/token/lookup-self", child, nil); lcl != "ok" {
+				state = "dead"
+				break
+			}
+			time.Sleep(5 * time.Millisecond)
+		}
+		viol := ""
+		if rcl == "ok" && before == "alive" && state != "dead" {
+			viol = "!C04V:the parent token was revoked (tree) after auth/token/tidy ran while an ancestor namespace of its child was sealed; the non-orphaned child (alive again after the unseal) is still accepted#ns:tidy-dropped-parent-index-below-sealed-namespace"
+		}
+		out.Op(fmt.Sprintf("%s|%s|%s|child:%s%s", tcl, before, rcl, state, viol), "nscase", "tidy-sealed-ancestor")
+		_ = c.Shutdown()
+	}
 }
 
 func TestVerifC04Fault(t *testing.T) {
